@@ -50,7 +50,8 @@ def widen_c01(steps):
             f0 = s["sboms"][0][0]
             s["sboms"] = [[f0, b'{"first":1}'.hex()]] + s["sboms"] + [[f0, b'{"last":2}'.hex()]]
         if s["op"] == "write_exec_d" and not s.get("swap"):
-            s["programs"] = [[p, p] for p in ("p1", "p2", "p3")]
+            # "./p1" and "p1" are two names for one destination: which source ends up there must not depend on the process
+            s["programs"] = [[p, p] for p in ("p1", "p2", "p3")] + [["./p1", "p2"], ["./p3", "p1"]]
     return steps
 
 
@@ -129,6 +130,7 @@ def phase_script(r):
     labels = [["k%d" % (i % 7), r.choice(tomlw.RND_STRINGS)] for i in range(12)]        # duplicated keys on purpose
     r.shuffle(labels)
     procs = [{"type": "p%d" % i, "command": ["c%d" % i], "args": ["a"], "default": i == 0} for i in range(6)]
+    procs += [{"type": "p%d" % i, "command": ["again-%d" % i], "args": [], "default": False} for i in (1, 4)]      # a process type defined twice
     plan = []
     for g in range(3):
         for i in range(8):
